@@ -7,7 +7,10 @@
     shape.cc (ShapeProcessor), gear/punctuator.cc (Punctuator: ProcessKeyEvent,
     ConvertDigitSeparator, ReconvertDigitSeparatorAsPunct, AlternatePunct,
     ConfirmUniquePunct, AutoCommitPunct, PairPunct) and engine.cc (ProcessKey; the
-    processor chain is [cf_processors cfg]).  The default key maps
+    processor chain is [cf_processors cfg]; the key binder re-enters it), gear/key_binder.cc
+    (KeyBindings::Bind, KeyBindingConditions, KeyBinder::{ProcessKeyEvent,
+    PerformKeyBinding, ReinterpretPagingKey}; not modelled: Switches / radio groups, "@index"
+    options, the select action = ApplySchema).  The default key maps
     are Gen/Keymaps.v (regenerated from the source by gen/keymaps.py). *)
 From Coq Require Import List Arith NArith ZArith Bool.
 From Coq.Strings Require Import Byte.
@@ -247,7 +250,7 @@ Definition begin_move (s : state) : state :=
   if negb (bytes_eqb (st_nav_input s) (cx_input c)) || (spans_end (st_spans s) <? cx_caret c)
   then mkSt c (cx_input c)
             (fold_left (fun sp g => spans_add_span sp (s_start g) (s_end g)) (segs_fwd (cx_comp c)) [])
-            (st_commit s) (st_odd s)
+            (st_commit s) (st_odd s) (st_kb_last s)
   else st_with_ctx s c.
 
 Definition jump_left (s : state) (start_pos : nat) : state * bool :=
@@ -405,7 +408,7 @@ Definition pair_punct (s : state) (fs : bool) (b : byte) : state * bool :=
           let odd := odd_get (st_odd s) fs b in
           let g' := seg_with_sel g (size_wrap (s_sel g + (if odd then 1 else 0)) mod 2)%N in
           let s1 := mkSt (ctx_with_comp c (sg_set_back (cx_comp c) g')) (st_nav_input s) (st_spans s) (st_commit s)
-                         (odd_set (st_odd s) fs b (negb odd)) in
+                         (odd_set (st_odd s) fs b (negb odd)) (st_kb_last s) in
           (fst (confirm_current_selection s1), true)
       end
     else (s, false)
@@ -551,15 +554,98 @@ Definition shape_process (s : state) (k : key) : state * presult :=
 
 (** ---- ConcreteEngine::ProcessKey ---- (the Switcher, first in the real
     list, has no hot keys in the modelled workspace and returns kNoop) *)
-Definition proc_of (i : proc_id) : state -> key -> state * presult :=
+(** ---- KeyBinder (gear/key_binder.cc) ---- *)
+(** KeyBindings::Bind: the vector of one key is kept sorted by condition
+    (predicting < paging < has_menu < composing < always); a new binding goes in
+    front of the existing ones of the same condition (std::lower_bound) *)
+Definition kb_rank (w : kb_when) : nat :=
+  match w with KwPredicting => 1 | KwPaging => 2 | KwHasMenu => 3 | KwComposing => 4 | KwAlways => 5 end.
+Fixpoint kb_insert (v : list kbinding) (b : kbinding) : list kbinding :=
+  match v with
+  | [] => [b]
+  | x :: r => if kb_rank (kb_whence x) <? kb_rank (kb_whence b) then x :: kb_insert r b else b :: v
+  end.
+(** the vector key_bindings_ holds for [key_event] after LoadBindings *)
+Definition kb_vector (k : key) : list kbinding :=
+  fold_left (fun v b => if key_eqb (kb_accept b) k then kb_insert v b else v) (cf_bindings cfg) [].
+
+(** KeyBindingConditions(ctx); no modelled component sets the tag "prediction" *)
+Definition kb_active (c : context) (w : kb_when) : bool :=
+  match w with
+  | KwAlways => true
+  | KwComposing => is_composing c
+  | KwHasMenu => has_menu c && negb (get_option c opt_ascii_mode)
+  | KwPaging => match sg_segs (cx_comp c) with g :: _ => has_tag TPaging (s_tags g) | [] => false end
+  | KwPredicting => false
+  end.
+
+(** KeyBinder::ReinterpretPagingKey *)
+Definition reinterpret_paging_key (s : state) (k : key) : state * bool :=
+  if k_release k then (s, false)
+  else
+    let ch := if (k_mod k =? 0)%Z then k_code k else 0%Z in
+    let lk := st_kb_last s in
+    let with_last (x : state) (v : Z) := mkSt (st_ctx x) (st_nav_input x) (st_spans x) (st_commit x) (st_odd x) v in
+    if (ch =? 46)%Z && ((lk =? 46)%Z || (lk =? 44)%Z) then (with_last s 0%Z, false)
+    else if (lk =? 46)%Z && (97 <=? ch)%Z && (ch <=? 122)%Z then
+      let inp := cx_input (st_ctx s) in
+      match inp with
+      | [] => (with_last s ch, false)
+      | _ => if Byte.eqb (last inp x00) x2e then (with_last s ch, false)
+             else (with_last (on_ctx s (fun c => push_input c x2e)) ch, true)
+      end
+    else (with_last s ch, false).
+
+(** the actions toggle / set_option / unset_option for a schema without [switches]
+    (no radio groups, no "@index" options: Switches finds nothing) *)
+Definition kb_perform_action (s : state) (a : kb_action) : state :=
+  match a with
+  | KaToggle o => on_ctx s (fun c => set_option cfg translate c o (negb (get_option c o)))
+  | KaSet o => on_ctx s (fun c => set_option cfg translate c o true)
+  | KaUnset o => on_ctx s (fun c => set_option cfg translate c o false)
+  | KaSelect _ => s     (* ApplySchema is outside the model (one schema per model run); no modelled schema binds it *)
+  | KaSend _ => s
+  end.
+
+(** KeyBinder::ProcessKeyEvent + PerformKeyBinding.
+    [red] is the value of [redirecting_] during this call: the member is written only by
+    PerformKeyBinding (true before the replay loop, false after it), so it is passed down
+    the call chain instead of being kept in the state.  [replay] is the re-entered
+    ConcreteEngine::ProcessKey ([None]: the model's nesting fuel is used up). *)
+Definition key_binder_process (replay : option (state -> key -> state * bool)) (red : bool)
+           (s : state) (k : key) : state * presult :=
+  if red || match cf_bindings cfg with [] => true | _ => false end then (s, PNoop)
+  else
+    let (s1, reinterpreted) := reinterpret_paging_key s k in
+    if reinterpreted then (s1, PNoop)
+    else
+      match find (fun b => kb_active (st_ctx s1) (kb_whence b)) (kb_vector k) with
+      | None => (s1, PNoop)
+      | Some b =>
+        match kb_act b with
+        | KaSend keys =>
+          match keys, replay with
+          | [], _ => (s1, PAccepted)
+          | _, Some f => (fold_left (fun x tk => fst (f x tk)) keys s1, PAccepted)
+          | _, None => (on_ctx s1 (fun c => ctx_fail c ErrRecursion), PAccepted)
+          end
+        | a => (kb_perform_action s1 a, PAccepted)
+        end
+      end.
+
+(** ---- ConcreteEngine::ProcessKey ---- (the Switcher, first in the real
+    list, has no hot keys in the modelled workspace and returns kNoop) *)
+Definition proc_of (kb : state -> key -> state * presult) (i : proc_id) : state -> key -> state * presult :=
   match i with
   | PSpeller => speller_process
   | PPunctuator => punctuator_process
   | PSelector => selector_process
   | PNavigator => navigator_process
   | PEditor => editor_process
+  | PKeyBinder => kb
   end.
-Definition processors : list (state -> key -> state * presult) := map proc_of (cf_processors cfg).
+Definition processors (kb : state -> key -> state * presult) : list (state -> key -> state * presult) :=
+  map (proc_of kb) (cf_processors cfg).
 
 Fixpoint run_processors (ps : list (state -> key -> state * presult)) (s : state) (k : key) : state * presult :=
   match ps with
@@ -573,8 +659,8 @@ Fixpoint run_processors (ps : list (state -> key -> state * presult)) (s : state
     end
   end.
 
-Definition process_key (s : state) (k : key) : state * bool :=
-  let (s1, ret) := run_processors processors s k in
+Definition process_key_gen (kb : state -> key -> state * presult) (s : state) (k : key) : state * bool :=
+  let (s1, ret) := run_processors (processors kb) s k in
   match ret with
   | PAccepted => (s1, true)
   | _ =>
@@ -583,5 +669,20 @@ Definition process_key (s : state) (k : key) : state * bool :=
     let (s2, ret2) := shape_process s1 k in
     match ret2 with PAccepted => (s2, true) | _ => (s2, false) end
   end.
+
+(** ProcessKey re-entered by the key binder: [fuel] bounds the nesting depth; the replay runs
+    with redirecting_ = true when the source sets the flag ([cf_kb_guard], Gen/EngFacts.v:
+    key_binder_redirect_guard), else with the flag as it was (false) *)
+Fixpoint process_key_n (fuel : nat) (red : bool) (s : state) (k : key) : state * bool :=
+  process_key_gen
+    (key_binder_process (match fuel with
+                         | 0 => None
+                         | S f => Some (process_key_n f (cf_kb_guard cfg))
+                         end) red) s k.
+
+Definition kb_fuel : nat := 64.
+
+(** a key event from the client: redirecting_ is false *)
+Definition process_key (s : state) (k : key) : state * bool := process_key_n kb_fuel false s k.
 
 End Procs.
